@@ -89,6 +89,16 @@ PROPS = {
  "C16": dict(oracle_ops=["js.xverify", "js.xaddr", "js.xvalid", "js.dverify", "js.daddr", "js.dvalid"], tie=tie("JS"), assumptions=COMMON_ASSUME + ["GopherJS object glue is not modelled; only the pure string wrappers are"]),
 }
 
+# functions reachable from a property's tie list through the library's call graph (tools/mk_tie_closure.py)
+import copy as _copy, json as _json, os as _os
+BASE_PROPS = _copy.deepcopy(PROPS)
+_tx = _os.path.join(_os.path.dirname(_os.path.abspath(__file__)), "tie_extra.json")
+if _os.path.exists(_tx):
+    for _p, _fs in _json.load(open(_tx)).items():
+        for _f in _fs:
+            if _f not in PROPS[_p]["tie"]:
+                PROPS[_p]["tie"].append(_f)
+
 PARTIAL = {
  "C01": "theorems per height: 4..12 in the default build, 14 and 16 in the thorough tier (18 opt-in); heights 20..30 have the height-generic lemmas with the per-height label check as a hypothesis (C01_partial). The hand-written model is tied to the Go code by skeleton digests and the correspondence run.",
  "C02": "nothing is left unproved about the model (all heights ≤ 30, all histories, all uint32 arguments); the tie of the hand-written key-object model is skeleton digests + correspondence.",
